@@ -175,8 +175,10 @@ void vh_free(mzd_t *M) {
   mzd_free(M);
 }
 
+void vh_mk_reset(void);
 void vh_free_all(void) {
   vh_ctx_t *c = CTX;
+  vh_mk_reset();
   /* windows first */
   for (int i = 0; i < c->nmats; i++)
     if (c->mats[i].M && c->roots[c->mats[i].root].M != c->mats[i].M) vh_free(c->mats[i].M);
